@@ -175,6 +175,24 @@ fn stub_family(thorough: bool) -> (VSink, u64) {
                     }
                 }
             }
+            // clone_from: a merged timeline that held a longer (or shorter) list is overwritten with [i] or [i, j]
+            for &j in &sparse {
+                for longer in [vec![pool[j].clone(), pool[i].clone(), pool[(i + j) % np].clone()], vec![pool[j].clone()], vec![]] {
+                    for src in [vec![i], vec![i, j]] {
+                        acc.1 += 1;
+                        let leaves: Vec<&Stub> = src.iter().map(|&x| &pool[x]).collect();
+                        let b = MergedTimeline::of(leaves.iter().map(|s| (*s).clone()).collect::<Vec<_>>());
+                        let mut a = MergedTimeline::of(longer.clone());
+                        a.clone_from(&b);
+                        let rank = (6u64 << 60) | (longer.len() as u64) << 40 | (i as u64) << 20 | j as u64;
+                        check_stub_meta(&a, &leaves, "clone_from", rank, &mut acc.0);
+                        // ... also through an Option slot
+                        let mut slot = Some(MergedTimeline::of(longer.clone()));
+                        slot.clone_from(&Some(b.clone()));
+                        check_stub_meta(slot.as_ref().unwrap(), &leaves, "clone_from", rank, &mut acc.0);
+                    }
+                }
+            }
             // nested: [[i, j], [k]] and [[i], [j, k]] over the sparse pool
             for &j in &sparse {
                 for &k in &sparse {
@@ -388,7 +406,7 @@ pub fn run(run: Run) -> ! {
     cov.insert("traces_validated_against_impl".into(), json!(acc.evals));
     cov.insert("evaluations".into(), json!(acc.evals));
     cov.insert("distinct_nontrivial".into(), json!(acc.lists - 1));
-    cov.insert("rule".into(), json!(format!("ALL lists of length 0..={maxlen} over a pool of {np} component timelines (property sets {{a}},{{k}},{{a,k}},{{}}; delays 0..1; cycles 1/2,1,2,4; repeat None/Times 0,1,2,3/Infinite/Times(u32::MAX, metadata only); reverse on/off); oracle: merged.update == components applied in order (bit-equal; fresh and dirty targets; union of the components' time grids), same after start_with, all orders agree when property sets are disjoint ({} permuted lists), delay=min, duration=max (inf if any), repeat=largest in None<Times n<Infinite, cycle_duration=Some iff all equal, MergedTimeline::from(t) == t; plus a metadata family of {} lists over 600 stub components (cycle undefined/1/2/1+1ulp/1e-8/5e-8 x delay 0/0.5/2/-8 x duration 1/3/inf/-6/-2 x repeat None/Times 0/Times 3/Times(u32::MAX)/Infinite): flat lists, nested merged timelines [[a,b],[c]], [[a],[b,c]] and WIDE lists (5..1025 components: a background stub with one other stub at the front, middle or back) with the same oracle; non-trivial = non-empty lists", acc.disjoint_orders, stub_lists)));
+    cov.insert("rule".into(), json!(format!("ALL lists of length 0..={maxlen} over a pool of {np} component timelines (property sets {{a}},{{k}},{{a,k}},{{}}; delays 0..1; cycles 1/2,1,2,4; repeat None/Times 0,1,2,3/Infinite/Times(u32::MAX, metadata only); reverse on/off); oracle: merged.update == components applied in order (bit-equal; fresh and dirty targets; union of the components' time grids), same after start_with, all orders agree when property sets are disjoint ({} permuted lists), delay=min, duration=max (inf if any), repeat=largest in None<Times n<Infinite, cycle_duration=Some iff all equal, MergedTimeline::from(t) == t; plus a metadata family of {} lists over 600 stub components (cycle undefined/1/2/1+1ulp/1e-8/5e-8 x delay 0/0.5/2/-8 x duration 1/3/inf/-6/-2 x repeat None/Times 0/Times 3/Times(u32::MAX)/Infinite): flat lists, nested merged timelines [[a,b],[c]], [[a],[b,c]] WIDE lists (5..1025 components: a background stub with one other stub at the front, middle or back) and merged timelines overwritten by clone_from (from a longer, shorter or empty list, directly and through an Option slot) with the same oracle; non-trivial = non-empty lists", acc.disjoint_orders, stub_lists)));
     cov.insert("exhaustive".into(), json!(true));
     cov.insert("metadata_checks".into(), json!(acc.meta_checks));
     cov.insert("distinct_observed_outcomes_capped".into(), json!(acc.outcomes.len()));
